@@ -400,6 +400,27 @@ fn run(ctx: &mut Ctx) {
                 }
             }
         }
+        // the forbidden bit 79 *alone* in either mask (with no block at all / with the seed's blocks), and the must-be-zero
+        // bytes 18-19 non-zero next to every boundary value of the field stored right before them (the 48-bit timestamp)
+        for which in 0..2 {
+            for blocks in [false, true] {
+                let mut p = if blocks { seed.clone() } else { Pwb::new('A', seed.mac, rs, vec![]) };
+                if which == 0 {
+                    p.sent_mask = 1 << 79;
+                } else {
+                    p.threshold_mask = 1 << 79;
+                }
+                check(ctx, &p.encode(), "bit 79 alone in a mask");
+            }
+        }
+        for ts in [0u64, 1, 0xFFFF_FFFF_FFFF, 0xFFFF_FFFF_FFFE, 0x8000_0000_0000, 0x0000_0001_0000, 0xFFFF] {
+            for z in [[1u8, 0], [0, 1], [0xFF, 0xFF], [0, 0x80], [0x80, 0], [2, 0]] {
+                let mut p = seed.clone();
+                p.trigger_timestamp = ts;
+                p.zero = z;
+                check(ctx, &p.encode(), "non-zero bytes 18-19 next to a boundary timestamp");
+            }
+        }
         // delay against timestamp, explicitly: smaller, equal, larger
         for (d, t) in [(0u16, 0u64), (1, 0), (0, 1), (500, 499), (500, 500), (500, 501), (0xFFFF, 0), (0xFFFF, 0xFFFE), (0xFFFF, 0xFFFF), (0xFFFF, 0x1_0000), (1, 0xFFFF_FFFF_FFFF)] {
             let mut p = seed.clone();
